@@ -78,6 +78,8 @@ class EquationSolver(object):
         if self.RunEquationReduction:
             parser.EquationReduction()
         self.Parser = parser
+        # The variable list belongs to the previous equation block (if any); it is rebuilt on the next solve.
+        self.VariableList = []
         if self.MaxTime is not None:
             self.Parser.MaxTime = self.MaxTime
         if len(msg) > 0:
